@@ -316,7 +316,7 @@ package mcp
 
 // After, step 1 (under the lock): decide between purged / unknown / the exact suffix, and copy it.
 // All index arithmetic in this contract is mathematical (unbounded); the code's is 64-bit.
-//@ func (*MemoryEventStore).After$1 [C20]
+//@ func (*MemoryEventStore).After$1 [C20, C08]
 //@   nopanic
 //@   requires storeWF(s)
 //@   ensures @unknown-stream !registered(s, sessionID, streamID) ==> result.1 != nil && len(result.0) == 0
@@ -330,7 +330,7 @@ package mcp
 
 // After, step 2 (the iterator): yields the copied payloads in order, stopping when the consumer says so; an error
 // is yielded alone.
-//@ func (*MemoryEventStore).After$2 [C20]
+//@ func (*MemoryEventStore).After$2 [C20, C08]
 //@   track copyData
 //@   track yield
 //@   ghost ds := callResult(copyData, 1, 0)
